@@ -8,6 +8,9 @@ R19.1  document mapping keys are normalised before type-sensitive use: a key obt
 R19.2  sibling call sites agree: path-level and operation-level parameters are parsed with the same naming context
        (otherwise the name of a promoted inline schema depends on where / in which order it is declared)
 R19.3  response selection does not depend on the order of the `responses` mapping  [= R5.1 normal form]
+R19.12 the discriminator collector rewrites a property slot of the (shared) variant schemas while walking the unions in registry order: what it reads
+       from that slot is kept per variant before the slot is overwritten, so a variant of two unions contributes its value to both
+R19.13 an allOf merge that met a base still being parsed is completed afterwards (inherited fields do not depend on declaration order)              [= R2.22]
 R19.10 sibling inline property schemas get distinct invented names: a name without the parent prefix only under a test of the sibling keys
 R19.11 names made up for inline schemas are tested against the declared schema names (no order-dependent merge with a declared schema)       [= R2.17]
 R19.9  names invented for inline schemas derive from the enclosing named context, not from a constant numbered in encounter order  [finding on the pinned tree]
@@ -77,11 +80,15 @@ def run(repo: Repo, rep: Report, tier: str) -> None:
 
     rule_raw_name_index(repo, rep, "R19.8")
     rule_invented_names_are_order_free(repo, rep, "R19.9")
+    rule_shared_variant_values_survive(repo, rep, "R19.12")
     rule_sibling_names_are_distinct(repo, rep, "R19.10")
     # R19.11: which of a made-up and an equally named declared schema survives must not depend on the declaration order: they never share a name  [= R2.17]
     from rules.c02 import rule_invented_names_avoid_declared
 
     rule_invented_names_avoid_declared(repo, rep, "R19.11")
+    from rules.c02 import rule_all_of_merge_is_completed
+
+    rule_all_of_merge_is_completed(repo, rep, "R19.13")
     strict = _strict_params(repo)
     rep.count("R19.1:type_strict_parser_parameters", {k: sorted(v) for k, v in strict.items()})
     # ---------------------------------------------------------------- R19.1
@@ -485,3 +492,58 @@ def rule_sibling_names_are_distinct(repo: Repo, rep, rule: str = "R19.10") -> No
                       "(the other property is typed with the wrong model / enum)", fn.loc(st))
     else:
         rep.ok(rule, sub, f"{n} definition(s): every name carries the parent prefix, or drops it only after checking the sibling keys", fn.loc())
+
+
+# ------------------------------------------------------------------------------------------------ R19.12 a rewritten slot of a shared schema is not read back
+def rule_shared_variant_values_survive(repo: Repo, rep, rule: str = "R19.12") -> None:
+    """`DiscriminatorEnumCollector` visits the discriminated unions in registry order (= order of components.schemas).  For each union it reads the
+    discriminator value of every variant from `variant.properties[<prop>].enum` and then *replaces* that property of the variant schema by a
+    reference to the union's unified enum.  A variant that belongs to two unions is the same object: the second union finds the rewritten slot
+    (no `enum`), skips the variant, and its unified enum lacks that value - which union loses depends on the declaration order.  Decided: the
+    function that overwrites `<schema>.properties[k]` and also reads `.enum` from that slot keeps what it read in a table on the collector
+    (stored before the overwrite, consulted when the slot yields nothing) - or reading and rewriting live in different passes."""
+    mod = repo.module("core.parsing.transformers.discriminator_enum_collector")
+    cls = mod.classes.get("DiscriminatorEnumCollector")
+    if cls is None:
+        raise AnalysisError(f"{rule}: anchor vanished: DiscriminatorEnumCollector")
+    n = 0
+    for q, fn in sorted(cls.methods.items()):
+        writes = [st for st in own_nodes(fn.node) if isinstance(st, ast.Assign) and any(
+            isinstance(t, ast.Subscript) and isinstance(t.value, ast.Attribute) and t.value.attr == "properties" for t in st.targets)]
+        if not writes:
+            continue
+        slot_vars = set()
+        for st in own_nodes(fn.node):
+            if isinstance(st, ast.Assign) and len(st.targets) == 1 and isinstance(st.targets[0], ast.Name):
+                v = st.value
+                if (isinstance(v, ast.Subscript) and isinstance(v.value, ast.Attribute) and v.value.attr == "properties") or \
+                        (isinstance(v, ast.Call) and isinstance(v.func, ast.Attribute) and v.func.attr == "get" and isinstance(v.func.value, ast.Attribute) and v.func.value.attr == "properties"):
+                    slot_vars.add(st.targets[0].id)
+        reads = [x for x in ast.walk(fn.node) if isinstance(x, ast.Attribute) and x.attr == "enum" and isinstance(x.value, ast.Name) and x.value.id in slot_vars]
+        if not reads:
+            continue
+        n += 1
+        sub = f"{mod.relpath}:DiscriminatorEnumCollector.{q} reads `.enum` from a property slot it rewrites"
+        stored = {t.func.value.attr for t in calls_in(fn.node) if isinstance(t.func, ast.Attribute) and t.func.attr == "setdefault" and isinstance(t.func.value, ast.Attribute)
+                  and isinstance(t.func.value.value, ast.Name) and t.func.value.value.id == "self"}
+        stored |= {t.value.attr for st in own_nodes(fn.node) if isinstance(st, ast.Assign) for t in st.targets if isinstance(t, ast.Subscript) and isinstance(t.value, ast.Attribute)
+                   and isinstance(t.value.value, ast.Name) and t.value.value.id == "self"}
+        fetched = {t.func.value.attr for t in calls_in(fn.node) if isinstance(t.func, ast.Attribute) and t.func.attr == "get" and isinstance(t.func.value, ast.Attribute)
+                   and isinstance(t.func.value.value, ast.Name) and t.func.value.value.id == "self"}
+        fetched |= {x.value.attr for x in ast.walk(fn.node) if isinstance(x, ast.Subscript) and isinstance(x.ctx, ast.Load) and isinstance(x.value, ast.Attribute)
+                    and isinstance(x.value.value, ast.Name) and x.value.value.id == "self"}
+        # the table must be filled before the first overwrite of the slot
+        first_write = min(w.lineno for w in writes)
+        early = {t.func.value.attr for t in calls_in(fn.node) if isinstance(t.func, ast.Attribute) and t.func.attr == "setdefault" and isinstance(t.func.value, ast.Attribute)
+                 and isinstance(t.func.value.value, ast.Name) and t.func.value.value.id == "self" and t.lineno < first_write}
+        early |= {t.value.attr for st in own_nodes(fn.node) if isinstance(st, ast.Assign) and st.lineno < first_write for t in st.targets if isinstance(t, ast.Subscript)
+                  and isinstance(t.value, ast.Attribute) and isinstance(t.value.value, ast.Name) and t.value.value.id == "self"}
+        kept = (stored & fetched & early) - {"schemas", "unified_enums"}
+        if kept:
+            rep.ok(rule, sub, f"the values read are kept per variant in self.{sorted(kept)[0]} before the slot is overwritten and consulted when the slot has none", fn.loc(reads[0]))
+        else:
+            rep.violation(rule, sub, f"{fn.fq}|rewritten-slot-read-back",
+                          "the variant schemas are shared between unions and visited in registry order: after the first union replaced the property, the second one finds no `enum` in it, "
+                          "skips the variant and its unified enum lacks the value - which union is complete depends on the order of components.schemas", fn.loc(writes[0]))
+    if n == 0:
+        rep.ok(rule, f"{mod.relpath}:DiscriminatorEnumCollector", "no method both reads `.enum` from a property slot and rewrites such a slot (separate passes)", cls.loc() if hasattr(cls, "loc") else f"{mod.relpath}:1")
